@@ -35,6 +35,7 @@ type TableDump struct {
 	HasRowid bool
 	RowIDs   []string   // rowid per row (rowid tables), same order as Rows
 	Rows     [][]string // quote(col) per column, in Cols order
+	Types    [][]string // typeof(col) per column, same shape as Rows
 }
 
 type Dump struct {
@@ -111,6 +112,9 @@ func dumpDB(ctx context.Context, db querier) (*Dump, error) {
 		for _, c := range t.Cols {
 			sel = append(sel, "quote("+qi(c.Name)+")")
 		}
+		for _, c := range t.Cols {
+			sel = append(sel, "typeof("+qi(c.Name)+")")
+		}
 		q := "SELECT " + strings.Join(sel, ", ") + " FROM " + qi(n)
 		if t.HasRowid {
 			q += " ORDER BY rowid"
@@ -139,7 +143,8 @@ func dumpDB(ctx context.Context, db querier) (*Dump, error) {
 				t.RowIDs = append(t.RowIDs, row[0])
 				row = row[1:]
 			}
-			t.Rows = append(t.Rows, row)
+			t.Rows = append(t.Rows, row[:len(t.Cols)])
+			t.Types = append(t.Types, row[len(t.Cols):])
 		}
 		if err := rows.Err(); err != nil {
 			rows.Close()
@@ -170,7 +175,7 @@ func equalTable(a, b *TableDump) bool {
 		return false
 	}
 	for i := range a.Rows {
-		if strings.Join(a.Rows[i], "\x00") != strings.Join(b.Rows[i], "\x00") {
+		if strings.Join(a.Rows[i], "\x00") != strings.Join(b.Rows[i], "\x00") || strings.Join(a.Types[i], ",") != strings.Join(b.Types[i], ",") {
 			return false
 		}
 	}
@@ -358,31 +363,37 @@ func sortedKeys[V any](m map[string]V) []string {
 
 // evalDefault returns quote() of what a column of the given declared type holds after
 // `INSERT INTO x SELECT <expr>` -- the value IFNULL(col, <default>) yields for a NULL.
-func evalDefault(ctx context.Context, typ, expr string) (string, error) {
+func evalDefault(ctx context.Context, typ, expr string, strict bool) (string, error) {
+	// the typing rules of a STRICT table matter for an ANY column only
+	strict = strict && normType(typ) == "any"
 	type res struct {
 		q   string
 		err error
 	}
-	key := typ + "\x00" + expr
+	key := fmt.Sprint(strict) + typ + "\x00" + expr
 	if v, ok := defaultCache.Load(key); ok {
 		r := v.(res)
 		return r.q, r.err
 	}
-	q, err := evalDefaultUncached(ctx, typ, expr)
+	q, err := evalDefaultUncached(ctx, typ, expr, strict)
 	defaultCache.Store(key, res{q, err})
 	return q, err
 }
 
 var defaultCache sync.Map
 
-func evalDefaultUncached(ctx context.Context, typ, expr string) (string, error) {
+func evalDefaultUncached(ctx context.Context, typ, expr string, strict bool) (string, error) {
 	db, err := sql.Open("sqlite3", ":memory:")
 	if err != nil {
 		return "", err
 	}
 	defer db.Close()
 	db.SetMaxOpenConns(1)
-	if _, err := db.ExecContext(ctx, "CREATE TABLE x (c "+typ+")"); err != nil {
+	opt := ""
+	if strict {
+		opt = " STRICT"
+	}
+	if _, err := db.ExecContext(ctx, "CREATE TABLE x (c "+typ+")"+opt); err != nil {
 		return "", err
 	}
 	if _, err := db.ExecContext(ctx, "INSERT INTO x SELECT "+expr); err != nil {
